@@ -570,7 +570,7 @@ class NormalisedCounts(BinwisePatchwiseArray):
         return self.__add__(other)
 
     def __mul__(self, other: Any) -> NormalisedCounts:
-        return type(self)(self.count * other, self.sum_weights)
+        return type(self)(self.counts * other, self.sum_weights)
 
     def _make_bin_slice(self, item: TypeSliceIndex) -> NormalisedCounts:
         counts = self.counts.bins[item]
